@@ -54,6 +54,7 @@ inductive Instr where
   | isUndefined | enclose (n : String) | getClosure
   | buildMacro (name : String) (offset : Nat) (flags : Nat) | ret
   | include_ (ignoreMissing : Bool)
+  | callBlock (name : String)
   | unsupported (name : String)
 
 structure LoopSt where
@@ -74,7 +75,7 @@ structure Frame where
   /-- closure a macro body reads from (`Frame::closure_context`) -/
   closureCtx : Option Nat := Option.none
 
-inductive RetKind | macroCall | includeCall
+inductive RetKind | macroCall | includeCall | blockCall
   deriving DecidableEq, Repr
 
 /-- what a nested evaluation returns to -/
@@ -86,6 +87,8 @@ structure Ret where
   frames : List Frame := []
   outs : List (List String) := []
   closure : Option Nat := Option.none
+  /-- height of the frame stack to restore (`restore_stack_depth`) -/
+  depth : Nat := 0
 
 structure St where
   /-- which instruction list is running -/
@@ -112,6 +115,8 @@ structure St where
 structure Prog where
   codes : Array (Array Instr)
   templates : List (String × Nat) := []
+  /-- the blocks of the template itself (no inheritance): name → instruction list -/
+  blocks : List (String × Nat) := []
 
 def globalFunctions : List String := ["range", "dict", "debug", "namespace"]
 
@@ -458,7 +463,9 @@ def exec (ops : Ops) (P : Prog) (i : Instr) (s : St) : Except Err St :=
           | some id => (id, s.closures)
           | Option.none => (s.closures.length, s.closures ++ [[]])
         let has := ((closures[id]?).getD []).any (fun (p : String × V) => p.1 == n)
-        let closures := if has then closures
+        -- a global function of the environment stays reachable through the globals (the model has no
+        -- value for it)
+        let closures := if has || ((s.lookup? n).isNone && globalFunctions.contains n) then closures
           else closures.modify id (fun c => (n, (s.lookup? n).getD .undef) :: c)
         .ok { s with closures := closures, frames := { f with closure := some id } :: fr }.next
       | [] => .error .stack
@@ -514,7 +521,8 @@ def exec (ops : Ops) (P : Prog) (i : Instr) (s : St) : Except Err St :=
           match s.frames with
           | f :: fr =>
             .ok { s with
-              calls := { kind := .includeCall, code := s.code, pc := s.pc + 1, stack := r, closure := f.closure } :: s.calls
+              calls := { kind := .includeCall, code := s.code, pc := s.pc + 1, stack := r, closure := f.closure,
+                         depth := s.frames.length } :: s.calls
               code := code, pc := 0, stack := []
               frames := { f with closure := Option.none } :: fr }
           | [] => .error .stack
@@ -522,6 +530,15 @@ def exec (ops : Ops) (P : Prog) (i : Instr) (s : St) : Except Err St :=
           if ignoreMissing then .ok { s with stack := r }.next else .error (.other "TemplateNotFound")
       | .seq _ | .iter _ => .error (.unsupported "include of a list of names")
       | _ => .error .invalidOperation
+  | .callBlock name, st =>
+      -- `call_block` without inheritance: the block's instructions in a fresh frame of the current context
+      if s.calls.any (fun r => r.kind = .includeCall) then .error (.unsupported "block of an included template") else
+      match P.blocks.find? (fun p => p.1 == name) with
+      | some (_, code) =>
+        .ok { s with
+          calls := { kind := .blockCall, code := s.code, pc := s.pc + 1, stack := st, depth := s.frames.length } :: s.calls
+          code := code, pc := 0, stack := [], frames := {} :: s.frames }
+      | Option.none => .error (.other "UnknownBlock")
   | .unsupported n, _ => .error (.unsupported ("instruction " ++ n))
   | _, _ => .error .stack
 
@@ -596,15 +613,19 @@ def wrapErr (s : St) (e : Err) : Err :=
     | _ => .other "BadInclude"
   else e
 
-/-- the end of an included template: back to the includer -/
+/-- the end of an included template or of a block: back to where it was entered, with the frame
+    stack cut back to its height at entry (`with_execution_state` / `restore_stack_depth`) -/
 def returnFromInclude (s : St) : Comp St :=
   match s.calls with
   | ret :: calls =>
+    let frames := s.frames.drop (s.frames.length - ret.depth)
     if ret.kind = .includeCall then
-      match s.frames with
+      match frames with
       | f :: fr => .pure { s with calls := calls, code := ret.code, pc := ret.pc, stack := ret.stack,
                                   frames := { f with closure := ret.closure } :: fr }
       | [] => .fail .stack
+    else if ret.kind = .blockCall then
+      .pure { s with calls := calls, code := ret.code, pc := ret.pc, stack := ret.stack, frames := frames }
     else .fail .stack
   | [] => .fail .stack
 
